@@ -102,6 +102,9 @@ for _f in sorted(_glob.glob(_os.path.join(_os.path.dirname(_os.path.abspath(__fi
                     PROPS[_id][_k].append(_x)
         PROPS[_id].setdefault('kani_bounds', {}).update(_d.get('kani_bounds', {}))
         if _d.get('explanation'):
-            PROPS[_id]['explanation'] = PROPS[_id].get('explanation', '') + ' | ' + _d['explanation']
+            PROPS[_id]['explanation'] = (PROPS[_id].get('explanation', '') + ' | ' + _d['explanation']).strip(' |')
+        for _k, _v in _d.items():
+            if _k not in PROPS[_id]:
+                PROPS[_id][_k] = _v
     else:
         PROPS[_id] = _d
